@@ -3,6 +3,7 @@ import PgBifrost.Proofs.BatcherAccounting
 import PgBifrost.Proofs.BatcherSeenOrder
 import PgBifrost.Proofs.SysExample
 import PgBifrost.Model.Front
+import PgBifrost.Proofs.BatcherSrc
 /-!
 # C04 — every filtered-in change reaches the sink exactly once, intact (batcher layer)
 
@@ -321,6 +322,24 @@ example : (Sys.run Sys.exCfg Sys.exActs).sinkAccepted.Perm
   (sys_exactly_once Sys.exCfg.bcfg false Sys.exActs Sys.exEnv (Or.inl rfl) (by decide) (by decide) (by decide)).1
 
 end sys
+
+/-- **the batcher model's message path is the batcher's source** (`batcher_as_in_source`).
+`Gen/BatcherSrc.lean` is `transport/batcher/batcher.go` TRANSLATED statement by statement on every run: the part
+of `StartBatching` that handles a received message (look up or create the key's batch, note a COMMIT in the seen
+list with the running count, reset the count when the delivery key changes, replace a full batch after sending
+it, skip BEGIN/COMMIT, `addToBatch`, store the batch back, stop on a fatal error, count the record) and
+`addToBatch` itself (the reaction per `Add` answer, the recursion on can't-fit). The model functions the master
+theorem above is about are EQUAL to the translation, for every batch kind and configuration. Trusted: Go's map
+read/write = `getOpen`/`setOpen`, `batchFactory.NewBatch` = `fresh`, the `Batch` interface = `Kind`, and that
+`Batch.Close` of the real batches never fails (the `if !ok { return }` after `sendBatch` is not translated). -/
+theorem batcher_as_in_source (K : Kind) (cfg : Cfg) :
+    (∀ s m, PgBifrost.Gen.BatcherSrc.onMsg K cfg s m = onMsg K cfg s m) ∧
+    (∀ f s b m, PgBifrost.Gen.BatcherSrc.addToBatch K cfg f s b m = addToBatch K cfg f s b m) ∧
+    -- `sendBatch` (Gen/SendBatchSrc.lean): the pending seen list is handed to the tracker FIRST (clause E3 of the
+    -- ledger contract), an empty batch is self-reported, otherwise the worker is picked by the routing rule
+    (∀ s b, PgBifrost.Gen.SendBatchSrc.sendBatch cfg s b = sendBatch cfg s b) :=
+  ⟨PgBifrost.BatcherSrcProofs.onMsg_eq K cfg, PgBifrost.BatcherSrcProofs.addToBatch_eq K cfg,
+   PgBifrost.BatcherSrcProofs.sendBatch_eq cfg⟩
 
 /-! ## from the replication client to the sink: filter ▸ partitioner ▸ marshaller ▸ batcher ▸ workers -/
 section front
